@@ -23,6 +23,223 @@ EXPLANATION = (
 )
 
 
+class _Unknown(Exception):
+    pass
+
+
+CMD, OTHER, DEFAULT = "<a command name>", "<some other word>", "<the default command>"
+
+
+class _Model:
+    """Evaluation of the argument pre-processing of parse_args on a finite partition of its inputs: the argument vector is empty or
+    starts with -h / --help / a command name / any other word; the parser is single- or multi-command; help-if-no-args is on or off.
+    The outcome depends on the inputs only through membership and identity tests, so one representative per class decides the class.
+    Values are model values (lists / strings / None / booleans / a frozenset for the registry); anything else is _Unknown."""
+
+    def __init__(self, argv, multi, help_if_none):
+        self.env = {"args": list(argv), "namespace": None, "self.command_parsers": frozenset([CMD]) if multi else None,
+                    "self._help_if_no_args": help_if_none, "self.default_command": DEFAULT}
+        self.result = None
+
+    def ev(self, e):
+        if isinstance(e, ast.Constant):
+            return e.value
+        if isinstance(e, (ast.Name, ast.Attribute)):
+            t = norm(e)
+            if t in self.env:
+                return self.env[t]
+            raise _Unknown(f"value of {t}")
+        if isinstance(e, (ast.List, ast.Tuple)):
+            return [self.ev(x) for x in e.elts]
+        if isinstance(e, ast.Set):
+            return frozenset(self.ev(x) for x in e.elts)
+        if isinstance(e, ast.IfExp):
+            return self.ev(e.body) if self.truth(self.ev(e.test)) else self.ev(e.orelse)
+        if isinstance(e, ast.UnaryOp) and isinstance(e.op, ast.Not):
+            return not self.truth(self.ev(e.operand))
+        if isinstance(e, ast.BoolOp):
+            v = None
+            for x in e.values:
+                v = self.ev(x)
+                if self.truth(v) != isinstance(e.op, ast.And):
+                    return v
+            return v
+        if isinstance(e, ast.Subscript):
+            base = self.ev(e.value)
+            if not isinstance(base, list):
+                raise _Unknown(f"subscript of {norm(e.value)}")
+            if isinstance(e.slice, ast.Slice):
+                lo = self.ev(e.slice.lower) if e.slice.lower is not None else None
+                hi = self.ev(e.slice.upper) if e.slice.upper is not None else None
+                if e.slice.step is not None or not all(x is None or isinstance(x, int) for x in (lo, hi)):
+                    raise _Unknown("slice")
+                return base[lo:hi]
+            i = self.ev(e.slice)
+            if not isinstance(i, int) or isinstance(i, bool):
+                raise _Unknown("index")
+            if not -len(base) <= i < len(base):
+                raise _Raises(f"IndexError at `{norm(e)}`")
+            return base[i]
+        if isinstance(e, ast.Compare):
+            left = self.ev(e.left)
+            for op, c in zip(e.ops, e.comparators):
+                right = self.ev(c)
+                if isinstance(op, (ast.In, ast.NotIn)):
+                    if right is None:
+                        raise _Raises(f"TypeError at `{norm(e)}` (membership test in None)")
+                    if not isinstance(right, (list, frozenset)):
+                        raise _Unknown(f"membership in {norm(c)}")
+                    if isinstance(left, list):
+                        raise _Unknown("list as member")
+                    # a literal collection that mentions words other than the help flags could also contain the representative
+                    if any(isinstance(x, str) and x not in ("-h", "--help", CMD, OTHER, DEFAULT) for x in right) and left in (CMD, OTHER):
+                        raise _Unknown(f"membership of an arbitrary word in {sorted(map(str, right))}")
+                    r = left in right
+                    r = r if isinstance(op, ast.In) else not r
+                elif isinstance(op, (ast.Is, ast.IsNot)):
+                    if not (left is None or right is None or isinstance(left, bool) and isinstance(right, bool)):
+                        raise _Unknown("identity test")
+                    r = (left is right) if isinstance(op, ast.Is) else (left is not right)
+                elif isinstance(op, (ast.Eq, ast.NotEq)):
+                    if isinstance(left, str) and isinstance(right, str) and {left, right} & {CMD, OTHER} and left != right:
+                        raise _Unknown("equality with an arbitrary word")
+                    r = (left == right) if isinstance(op, ast.Eq) else (left != right)
+                elif isinstance(op, (ast.Lt, ast.LtE, ast.Gt, ast.GtE)) and isinstance(left, int) and isinstance(right, int):
+                    r = {ast.Lt: left < right, ast.LtE: left <= right, ast.Gt: left > right, ast.GtE: left >= right}[type(op)]
+                else:
+                    raise _Unknown(f"comparison {norm(e)}")
+                if not r:
+                    return False
+                left = right
+            return True
+        if isinstance(e, ast.Call):
+            n = call_name(e)
+            if n in ("all", "any") and isinstance(e.func, ast.Name) and len(e.args) == 1 and isinstance(e.args[0], (ast.GeneratorExp, ast.ListComp)) \
+                    and len(e.args[0].generators) == 1 and isinstance(e.args[0].generators[0].target, ast.Name):
+                g = e.args[0].generators[0]
+                it = self.ev(g.iter)
+                if not isinstance(it, list):
+                    raise _Unknown("generator source")
+                saved = self.env.get(g.target.id, _Model)
+                res = n == "all"
+                try:
+                    for x in it:
+                        self.env[g.target.id] = x
+                        if not all(self.truth(self.ev(c)) for c in g.ifs):
+                            continue
+                        v = self.truth(self.ev(e.args[0].elt))
+                        if v != (n == "all"):
+                            res = v
+                            break
+                finally:
+                    if saved is _Model:
+                        self.env.pop(g.target.id, None)
+                    else:
+                        self.env[g.target.id] = saved
+                return res
+            if n == "len" and isinstance(e.func, ast.Name) and len(e.args) == 1:
+                v = self.ev(e.args[0])
+                if isinstance(v, (list, frozenset)):
+                    return len(v)
+            if n in ("list", "bool") and isinstance(e.func, ast.Name) and len(e.args) == 1:
+                v = self.ev(e.args[0])
+                if n == "bool":
+                    return self.truth(v)
+                if isinstance(v, list):
+                    return list(v)
+            raise _Unknown(f"call {norm(e)[:60]}")
+        raise _Unknown(f"expression {norm(e)[:60]}")
+
+    def truth(self, v):
+        if v is None or isinstance(v, (bool, int, list, frozenset)):
+            return bool(v)
+        if isinstance(v, str):
+            return True
+        raise _Unknown("truth value")
+
+    def run(self, stmts):
+        """-> True when the hand-over to argparse was reached"""
+        for st in stmts:
+            if isinstance(st, ast.If):
+                if self.run(st.body if self.truth(self.ev(st.test)) else st.orelse):
+                    return True
+                continue
+            hand = [c for c in ast.walk(st) if isinstance(c, ast.Call) and call_name(c) == "parse_args" and norm(c.func.value) == "self.parser"]
+            if hand:
+                if not hand[0].args:
+                    raise _Unknown("parse_args without an explicit argument list")
+                self.result = self.ev(hand[0].args[0])
+                return True
+            if isinstance(st, ast.Assign) and len(st.targets) == 1 and isinstance(st.targets[0], ast.Name):
+                v = self.ev(st.value)
+                self.env[st.targets[0].id] = list(v) if isinstance(v, list) and not isinstance(st.value, ast.Name) else v
+                continue
+            if isinstance(st, ast.Expr) and isinstance(st.value, ast.Call):
+                c = st.value
+                n = call_name(c)
+                if n == "print" and isinstance(c.func, ast.Name):
+                    continue
+                if isinstance(c.func, ast.Attribute) and isinstance(c.func.value, ast.Name) and isinstance(self.env.get(c.func.value.id), list):
+                    tgt = self.env[c.func.value.id]
+                    vals = [self.ev(a) for a in c.args]
+                    if n == "append" and len(vals) == 1:
+                        tgt.append(vals[0])
+                        continue
+                    if n == "insert" and len(vals) == 2 and isinstance(vals[0], int):
+                        tgt.insert(vals[0], vals[1])
+                        continue
+                    if n == "extend" and len(vals) == 1 and isinstance(vals[0], list):
+                        tgt.extend(vals[0])
+                        continue
+                raise _Unknown(f"statement {norm(st)[:60]}")
+            if isinstance(st, ast.Expr) and isinstance(st.value, ast.Constant):
+                continue
+            if isinstance(st, ast.AugAssign) and isinstance(st.target, ast.Name) and isinstance(st.op, ast.Add):
+                a, b = self.ev(st.target), self.ev(st.value)
+                if isinstance(a, list) and isinstance(b, list):
+                    self.env[st.target.id] = a + b
+                    continue
+            if isinstance(st, ast.Pass):
+                continue
+            raise _Unknown(f"statement {norm(st)[:60]}")
+        return False
+
+
+class _Raises(Exception):
+    pass
+
+
+def _default_command_rule(cx, repo, parse_args):
+    """R19e: what ArgParser.parse_args hands to argparse, decided on the finite partition of its inputs (see _Model)."""
+    from sa.inline import inlined
+    fn, used = inlined(repo.modules[REL], parse_args)
+    cx.note(f"R19e: parse_args analysed with {used or 'no'} helper(s) inlined")
+    n = 0
+    for multi in (False, True):
+        for hn in (False, True):
+            for argv in ([], ["-h"], ["--help"], [CMD], [OTHER], ["-h", OTHER], [OTHER, CMD], [CMD, "-h"]):
+                exp = list(argv)
+                if not exp and hn:
+                    exp.append("--help")
+                if multi and (not exp or exp[0] not in ("-h", "--help", CMD)):
+                    exp.insert(0, DEFAULT)
+                m = _Model(argv, multi, hn)
+                case = f"argv={argv}, {'multi' if multi else 'single'}-command parser, help_if_no_args={hn}"
+                try:
+                    reached = m.run(fn.body)
+                    got = m.result if reached else None
+                    cx.need(reached, "R19e", parse_args, f"the call self.parser.parse_args(...) is not reached in the model ({case})")
+                    why = None if got == exp else f"argparse receives {got}, expected {exp}"
+                except _Raises as e:
+                    why = str(e)
+                except _Unknown as e:
+                    cx.need(False, "R19e", parse_args, f"argument pre-processing is outside the evaluated fragment: {e} ({case})")
+                n += 1
+                cx.ob("R19e", parse_args, why is None, "the default command is put in front exactly when the arguments do not start with a command name or a help flag"
+                      if why is None else f"{case}: {why}", stmt=f"default command [{case}]")
+    cx.count("R19e:input classes evaluated", n)
+
+
 def run(cx):
     repo = cx.repo
     for r, t in (("R19a", "transitive registration is wired and every repeatable insert is guarded by a membership test (or the insert is idempotent)"),
@@ -215,13 +432,36 @@ def run(cx):
         calls = [c for c in ast.walk(l) if isinstance(c, ast.Call) and call_name(c) == "add_argument"]
         fwd = len(calls) == 1 and norm(calls[0].func.value) == norm(l.target) and any(isinstance(a, ast.Starred) and is_name(a.value, "args") for a in calls[0].args) and \
             any(k.arg == "_propagate" and const(k.value, bool) and k.value.value is False for k in calls[0].keywords) and any(k.arg is None and is_name(k.value, "kwargs") for k in calls[0].keywords)
-        pname = None
-        if pops and isinstance(enclosing_stmt(pops[0]), ast.Assign):
-            pname = norm(enclosing_stmt(pops[0]).targets[0])
-        guarded = any(norm(e) == pname and pol for e, pol in facts(l)) and not [e for e, pol in facts(l) if norm(e) != pname]
+        # the guard of the loop: every must-fact has to be a test of the popped value that is true for True and false for False
+        def pop_value(e):
+            if pops and e is pops[0]:
+                return True
+            if isinstance(e, ast.Name):
+                d = assignments(ak_add, e.id)
+                return len(d) == 1 and pops and d[0][1] is pops[0]
+            return False
+
+        def polarity(e, pol):
+            """+1: holds exactly when _propagate is true; -1: exactly when false; None: not a recognised test of the popped value"""
+            if pop_value(e):
+                return 1 if pol else -1
+            if isinstance(e, ast.Compare) and len(e.ops) == 1 and pop_value(e.left) and const(e.comparators[0], bool):
+                v, op = e.comparators[0].value, e.ops[0]
+                if isinstance(op, (ast.Is, ast.Eq)):
+                    r = 1 if v else -1
+                elif isinstance(op, (ast.IsNot, ast.NotEq)):
+                    r = -1 if v else 1
+                else:
+                    return None
+                return r if pol else -r
+            return None
+        pols = [polarity(e, pol) for e, pol in facts(l)]
+        cx.need(over and fwd and pols and all(p is not None for p in pols) or not (over and fwd) or not pols, "R19b", l,
+                f"the guard of the forwarding loop is not a recognised test of the popped _propagate value: {[norm(e) for e, _ in facts(l)]}")
+        guarded = bool(pols) and all(p == 1 for p in pols)
         ok = over and fwd and guarded
     cx.ob("R19b", floops[0] if floops else ak_add, ok, "unless _propagate is False the option is forwarded to every dependent, once, with _propagate=False" if ok else
-          "forwarding to the dependents is not `for d in dependents.values(): d.add_argument(*args, _propagate=False, **kwargs)` under `if propagate`")
+          "forwarding to the dependents is not `for d in dependents.values(): d.add_argument(*args, _propagate=False, **kwargs)` under a test of the popped _propagate value")
     # ArgParser.add_argument
     loops = [l for l in walk_local(ap_add) if isinstance(l, ast.For)]
     ok = False
@@ -239,30 +479,7 @@ def run(cx):
     cx.ob("R19b", single[0] if single else ap_add, ok, "single-command parser: straight to argparse" if ok else "single-command branch altered")
 
     # ---------------------------------------------------------------- R19e
-    ins0 = [c for c in walk_local(parse_args) if isinstance(c, ast.Call) and call_name(c) == "insert" and is_name(c.func.value, "args")]
-    cx.need(len(ins0) == 1, "R19e", parse_args, "default command insertion")
-    c = ins0[0]
-    ok = len(c.args) == 2 and const(c.args[0], int) and c.args[0].value == 0 and norm(c.args[1]) == "self.default_command"
-    cx.ob("R19e", c, ok, "the default command is put in front of the arguments" if ok else "default command is not inserted at position 0")
-    fs = facts(c)
-    multi = any(isinstance(e, ast.Compare) and isinstance(e.ops[0], ast.IsNot) and pol and norm(e.left) == "self.command_parsers" for e, pol in fs)
-    cond = [e for e, pol in fs if pol and isinstance(e, ast.Call) and call_name(e) == "all"]
-    cond_ok = False
-    if cond and isinstance(cond[0].args[0], ast.GeneratorExp):
-        ge = cond[0].args[0]
-        elt_ok = isinstance(ge.elt, ast.Compare) and isinstance(ge.elt.ops[0], ast.NotIn) and norm(ge.elt.comparators[0]) == norm(ge.generators[0].target)
-        it = ge.generators[0].iter
-        srcs = [norm(x) for x in it.elts] if isinstance(it, (ast.List, ast.Tuple)) else []
-        helps = any("'-h'" in s and "'--help'" in s for s in srcs)
-        cmds = "self.command_parsers" in srcs
-        first = isinstance(ge.elt, ast.Compare) and is_name(ge.elt.left) and any("args[0]" in norm(v) for _, v in assignments(parse_args, ge.elt.left.id) if v is not None)
-        cond_ok = elt_ok and helps and cmds and first and len(srcs) == 2
-    else:
-        # nested `not in` comparisons form
-        txt = {(norm(e), pol) for e, pol in fs}
-        cond_ok = any("not in" in t and "self.command_parsers" in t and pol for t, pol in txt) and any("'-h'" in t for t, pol in txt)
-    cx.ob("R19e", c, multi and cond_ok, "inserted iff the first argument is neither -h/--help nor a declared command (multi-command parsers only)" if multi and cond_ok else
-          "the condition for inserting the default command is not `first argument not in help flags and not in the commands`", stmt=norm(c) + " [condition]")
+    cx.guard(_default_command_rule, cx, repo, parse_args)
     dd = [s for s in walk_local(init_multi) if isinstance(s, ast.Assign) and is_name(s.targets[0], "default_command")]
     ok = len(dd) == 1 and norm(dd[0].value).endswith("[0]") and any(isinstance(e, ast.Compare) and isinstance(e.ops[0], ast.Is) and pol and norm(e.left) == "default_command" for e, pol in facts(dd[0]))
     cx.ob("R19e", dd[0] if dd else init_multi, ok, "unless given, the default command is the first public command" if ok else "default command selection altered")
